@@ -421,6 +421,16 @@ def c17_data_rules(ctx, rid_roles, rid_mask, rid_lock, rid_color):
         rm.ok("x, y, c, ye, xe are all filtered with the same mask")
     else:
         rm.bad(ctx.finding(rid_mask, gen, gen.node, "not every yielded array is filtered by the point mask (filtered: %s): series components get out of step" % sorted(filt), construct="mask-application"), "mask application")
+    # the per-series arrays are aligned by dimension name (xr.broadcast) before they are flattened
+    fills = [lp_ for lp_ in walk_shallow(gen.node) if isinstance(lp_, ast.For) and any(isinstance(st, ast.Assign) and isinstance(st.targets[0], ast.Subscript) and norm(st.targets[0].value) == "data" for st in ast.walk(lp_))
+             and "das" in norm(lp_.iter)]
+    need(fills, "anchor lost: the loop filling `data` from `das` in gen_xy")
+    for lp_ in fills:
+        if "broadcast(" in norm(lp_.iter):
+            rm.ok("data[k] is filled from xr.broadcast(*das.values()): x, y, c and errors are aligned by dimension name", norm(lp_.iter))
+        else:
+            rm.bad(ctx.finding(rid_mask, gen, lp_, "`for %s in %s` fills the series arrays without xr.broadcast: x, y, colour and error arrays stored with their dimensions in different orders (or sizes that happen to agree) are paired by position, "
+                               "so points are drawn at the wrong coordinates" % (norm(lp_.target), norm(lp_.iter)), construct="no-broadcast"), "broadcast before flatten")
     ys = [n for n in walk_shallow(gen.node) if isinstance(n, ast.Expr) and isinstance(n.value, ast.Yield)]
     lp = [n for n in walk_shallow(gen.node) if isinstance(n, ast.For) and "self._z_vals" in norm(n.iter)]
     how = None
@@ -479,6 +489,28 @@ def c17_data_rules(ctx, rid_roles, rid_mask, rid_lock, rid_color):
             else:
                 rl.bad(ctx.finding(rid_lock, f, (nodes[0].stmt if nodes else f.node), "%s: %s is %s within one series iteration: labels and drawn series get out of step" % (f.name, what, o), construct="lockstep %s %s" % (f.name, what)), "%s %s" % (f.name, what))
 
+    # histogram: one label and one yielded series per data series, on every path
+    hp = prog.func(MPL + ".Histogram.plot_histogram")
+    need(hp is not None, "anchor lost: Histogram.plot_histogram")
+    gens = [fn for fn in hp.nested.values() if any("_gen_xy" in norm(x.iter) for x in ast.walk(fn.node) if isinstance(x, ast.For))] or \
+           ([hp] if any("_gen_xy" in norm(x.iter) for x in ast.walk(hp.node) if isinstance(x, ast.For)) else [])
+    need(len(gens) == 1, "anchor lost: the series loop of Histogram.plot_histogram")
+    hf = gens[0]
+    hg = build_cfg(hf.node)
+    ctx.touch(hf, hg)
+    hheads = [n for n in hg.nodes if n.kind == "for" and "_gen_xy" in norm(n.ast.iter)]
+    need(len(hheads) == 1, "anchor lost: series loop in plot_histogram")
+    hl = [n for n in hg.nodes if any(norm(c) == "next(self._zlbls)" for c in node_calls(n))]
+    hy = [n for n in hg.nodes if n.kind == "stmt" and isinstance(n.ast, ast.Expr) and isinstance(n.ast.value, ast.Yield)] or \
+         [n for n in hg.nodes if any(isinstance(c.func, ast.Attribute) and c.func.attr in ("append", "hist") for c in node_calls(n))]
+    for nodes, what in ((hl, "the z label iterator"), (hy, "the yielded / collected series")):
+        o = _once_per_iteration(hg, hheads[0], nodes)
+        if o == "once":
+            rl.ok("plot_histogram: %s advances exactly once per series on every path" % what)
+        else:
+            rl.bad(ctx.finding(rid_lock, hf, (nodes[0].stmt if nodes else hf.node), "plot_histogram: %s is %s within one series iteration: every later series is drawn with the label, colour and line width of another z value" % (what, o),
+                               construct="lockstep plot_histogram %s" % what), "plot_histogram %s" % what)
+
     # ---- colour provenance
     rc = ctx.rule(rid_color, "line colours = cmap(norm(v)) with v and the norm's limits from the same quantity; absent limits tested with `is None`", floor=4)
     cl = P.methods.get("calc_line_colors")
@@ -509,6 +541,33 @@ def c17_data_rules(ctx, rid_roles, rid_mask, rid_lock, rid_color):
             rc.bad(ctx.finding(rid_color, cl, (wrong or rv)[0].ast, "with c_coo %s the colour values are %s, not the norm applied to each of %s" % ("given" if cval == NOTNONE else "absent", [norm(n.ast.value) for n in rv], src), construct="rvals " + src), "rvals %s" % src)
         else:
             raise AnalysisError("idiom changed: rvals in calc_line_colors: %s" % [norm(n.ast.value) for n in rv])
+    # numeric versus non-numeric z values: the test must hold for numpy scalars (array elements are np.int64 / np.float64, not int)
+    lins = [n for n in g.nodes if n.kind == "stmt" and isinstance(n.ast, ast.Assign) and norm(n.ast.targets[0]) == "rvals" and gshape(n.ast.value) is None and "linspace" in norm(n.ast.value)]
+    for ln in lins:
+        p_ = getattr(ln.ast, "_parent", None)
+        while p_ is not None and not isinstance(p_, ast.If):
+            p_ = getattr(p_, "_parent", None)
+        need(p_ is not None, "idiom changed: the non-numeric colour fallback is unconditional")
+        t = p_.test
+        neg = isinstance(t, ast.UnaryOp) and isinstance(t.op, ast.Not)
+        t0 = t.operand if neg else t
+        if isinstance(t0, ast.Call) and norm(t0.func) == "isinstance" and len(t0.args) == 2:
+            tys = [norm(x) for x in (t0.args[1].elts if isinstance(t0.args[1], ast.Tuple) else [t0.args[1]])]
+            if any(("np." in x or "numpy." in x or "numbers." in x or x in ("Number", "Real", "Integral")) for x in tys):
+                rc.ok("numeric z values recognised by isinstance(%s)" % ", ".join(tys))
+            elif set(tys) <= {"int", "float", "complex", "bool"}:
+                rc.bad(ctx.finding(rid_color, cl, t0, "`%s` decides whether the z values are numeric, but they are elements of a numpy array: np.int64 / np.int32 are not instances of int, so integer z coordinates are coloured by their position "
+                                   "(linspace) instead of by their value" % norm(t0), construct="numeric-test-python-types"), "numeric test")
+            else:
+                raise AnalysisError("idiom changed: numeric test `%s` in calc_line_colors" % norm(t0))
+        elif isinstance(t0, ast.Call) and norm(t0.func).rsplit(".", 1)[-1] in ("isreal", "isrealobj", "issubdtype", "isscalar", "is_numeric_dtype"):
+            rc.ok("numeric z values recognised by %s" % norm(t0.func))
+        elif isinstance(t0, ast.Compare) and ("dtype" in norm(t0) or "kind" in norm(t0)):
+            rc.ok("numeric z values recognised by dtype test `%s`" % norm(t0))
+        elif "c_coo" in norm(t0):
+            rc.ok("colour quantity test `%s`" % norm(t0))
+        else:
+            raise AnalysisError("idiom changed: test selecting the non-numeric colour fallback: `%s`" % norm(t0))
     over_rvals = [(n, gshape(n.ast.value)) for n in g.nodes if n.kind == "stmt" and isinstance(n.ast, ast.Assign) and gshape(n.ast.value) and gshape(n.ast.value)[1] == "rvals"]
     cols = [n for n in g.nodes if n.kind == "stmt" and isinstance(n.ast, ast.Assign) and norm(n.ast.targets[0]) == "self._cols"]
     need(cols, "anchor lost: self._cols in calc_line_colors")
@@ -797,6 +856,26 @@ def c18_rules(ctx):
     else:
         r10.bad(ctx.finding("C18.R10", ph, tc[0], "the per-panel colours (`%s`) and the legend do not share the global max_mag: each panel is normalised to its own maximum, so equal z values get different colours in different panels and disagree with the legend" % norm(tc[0])[:70],
                             construct="heatmap-max_mag"), "shared colour scale")
+
+    # ---- R12 heat map: whatever aggregate was given, every unmapped dimension is aggregated away
+    r12 = ctx.rule("C18.R12", "heat map with unmapped dimensions: aggregate None / a name / a list of names are all widened to 'all unmapped dimensions' (one mesh per panel)", floor=3)
+    blocks = [n for n in ast.walk(init.node) if isinstance(n, ast.If) and "is_heatmap" in norm(n.test) and "unmapped" in norm(n.test)]
+    need(len(blocks) == 1, "anchor lost: the heat-map aggregation default in Infiniplotter.__init__")
+    wrapper = ast.parse("def _blk(self):\n    pass\n").body[0]
+    wrapper.body = [blocks[0]]
+    gb = build_cfg(wrapper)
+    for label, val in (("None", NONE), ("True", TRUE), ("a dimension name", const("dim_a")), ("a list of names", const(("dim_a", "dim_b")))):
+        flb = Flow(gb, {"self.is_heatmap": TRUE, "self.unmapped": TRUTHY, "self.aggregate": val}).run()
+        env_x = flb.IN.get(gb.exit.id)
+        need(env_x is not None, "idiom changed: heat-map aggregation block does not complete normally")
+        got = env_x.get("self.aggregate") if hasattr(env_x, "get") else None
+        if got == TRUE:
+            r12.ok("aggregate=%s -> True (all unmapped dimensions)" % label)
+        elif is_const(got) or got == NONE:
+            r12.bad(ctx.finding("C18.R12", init, blocks[0], "in heat-map mode with unmapped dimensions aggregate=%s is left as %r instead of being widened to all unmapped dimensions: the remaining dimension is iterated and several meshes are stacked in one panel "
+                                "(the visible one is not the aggregated z)" % (label, got[1]), construct="heatmap-aggregate-not-widened"), "aggregate %s" % label)
+        else:
+            raise AnalysisError("idiom changed: heat-map aggregation default leaves aggregate=%s as %r" % (label, got))
 
     # ---- R11 automatic hues of distinct coordinates are distinct
     r11 = ctx.rule("C18.R11", "automatic hues: N equally spaced hues over the sweep exclude the end point whenever the default sweep is a whole number of turns (hue is periodic)", floor=1)
